@@ -527,6 +527,12 @@ func inlineCond(f *Func, cond ast.Expr) ast.Expr {
 		}
 		return &ast.BinaryExpr{X: x, OpPos: b.OpPos, Op: b.Op, Y: y}
 	}
+	if id, ok := e.(*ast.Ident); ok {
+		if def := boolLocalDef(f, id); def != nil {
+			return &ast.ParenExpr{Lparen: id.Pos(), X: def, Rparen: id.End()}
+		}
+		return cond
+	}
 	c, ok := e.(*ast.CallExpr)
 	if !ok || len(c.Args) != 0 {
 		return cond
@@ -579,4 +585,127 @@ func inlineCond(f *Func, cond ast.Expr) ast.Expr {
 		return cond
 	}
 	return rs.Results[0]
+}
+
+// boolLocalDef: the use `id` is the condition (or a conjunct/disjunct of the condition) of an if statement, id is a bool
+// local defined exactly once by `id := <expr>` in a statement that precedes that if statement in the same block, <expr>
+// has no calls other than conversions/len, and no statement between the two assigns a variable <expr> mentions. Then the
+// condition is <expr> and facts can be read off it. Otherwise nil.
+func boolLocalDef(f *Func, id *ast.Ident) ast.Expr {
+	info := f.Pkg.TypesInfo
+	obj, ok := info.Uses[id].(*types.Var)
+	if !ok || obj.IsField() {
+		return nil
+	}
+	if b, isB := obj.Type().Underlying().(*types.Basic); !isB || b.Kind() != types.Bool {
+		return nil
+	}
+	root := f.Root()
+	if root.Body == nil {
+		return nil
+	}
+	var defStmt *ast.AssignStmt
+	var def ast.Expr
+	n := 0
+	ast.Inspect(root.Body, func(m ast.Node) bool {
+		switch s := m.(type) {
+		case *ast.AssignStmt:
+			for i, l := range s.Lhs {
+				lid, ok := l.(*ast.Ident)
+				if !ok || (info.Defs[lid] != obj && info.Uses[lid] != obj) {
+					continue
+				}
+				n++
+				if s.Tok == token.DEFINE && len(s.Rhs) == len(s.Lhs) {
+					defStmt, def = s, s.Rhs[i]
+				}
+			}
+		case *ast.ValueSpec:
+			for _, nm := range s.Names {
+				if info.Defs[nm] == obj {
+					n += 2 // var declarations are not handled
+				}
+			}
+		case *ast.UnaryExpr:
+			if s.Op == token.AND {
+				if x, ok := unparen(s.X).(*ast.Ident); ok && info.Uses[x] == obj {
+					n += 2 // address taken
+				}
+			}
+		}
+		return true
+	})
+	if n != 1 || defStmt == nil || def == nil {
+		return nil
+	}
+	pure := true
+	var mentioned []types.Object
+	ast.Inspect(def, func(m ast.Node) bool {
+		switch x := m.(type) {
+		case *ast.FuncLit:
+			pure = false
+		case *ast.CallExpr:
+			if tv, ok := info.Types[x.Fun]; ok && tv.IsType() {
+				return true
+			}
+			if fid, ok := unparen(x.Fun).(*ast.Ident); ok {
+				if _, isBuiltin := info.Uses[fid].(*types.Builtin); isBuiltin && fid.Name == "len" {
+					return true
+				}
+			}
+			pure = false
+		case *ast.Ident:
+			if v, ok := info.Uses[x].(*types.Var); ok && !v.IsField() {
+				mentioned = append(mentioned, v)
+			}
+		}
+		return true
+	})
+	if !pure {
+		return nil
+	}
+	// the enclosing block of the definition, and the sibling if statement whose condition holds the use
+	var blk *ast.BlockStmt
+	ast.Inspect(root.Body, func(m ast.Node) bool {
+		if b, ok := m.(*ast.BlockStmt); ok {
+			for _, st := range b.List {
+				if st == ast.Stmt(defStmt) {
+					blk = b
+				}
+			}
+		}
+		return blk == nil
+	})
+	if blk == nil {
+		return nil
+	}
+	after := false
+	for _, st := range blk.List {
+		if st == ast.Stmt(defStmt) {
+			after = true
+			continue
+		}
+		if !after {
+			continue
+		}
+		if st.Pos() <= id.Pos() && id.End() <= st.End() {
+			for is, _ := st.(*ast.IfStmt); is != nil; {
+				if is.Init == nil && is.Cond.Pos() <= id.Pos() && id.End() <= is.Cond.End() {
+					return def
+				}
+				next, _ := is.Else.(*ast.IfStmt)
+				if is.Init != nil {
+					break
+				}
+				is = next
+			}
+			return nil
+		}
+		for _, o := range mentioned {
+			if AssignsObj(info, st, o) {
+				return nil
+			}
+		}
+	}
+	return nil
 }
